@@ -2258,8 +2258,16 @@ class ktensor:
         """
         modes = parse_one_d(modes)
         assert np.all(
-            modes[:-1] <= modes[1:]
+            modes[:-1] < modes[1:]
         ), "Modes must be sorted in ascending order"
+        if np.any(modes < -1) or np.any(modes >= self.ndims):
+            assert False, f"Invalid modes: {modes}"
+        needed = sum(
+            self.ncomponents if k == -1 else self.shape[k] * self.ncomponents
+            for k in modes
+        )
+        if len(data) < needed:
+            assert False, "Data is too short"
 
         loc = 0  # Location in data array
         for k in modes:
